@@ -133,7 +133,7 @@ def invalid_component_sets(res):
 # direct driving of Simulator / Market / IndexMarket: evaluations interleaved with clock advances, trades,
 # a component added later and outstanding shares revised (not reachable through a runner configuration)
 
-D_OPS = [("eval",), ("adv",), ("adv_c",), ("add",), ("shares", 0, 5), ("shares", 1, 1), ("trade", 0, 104.0), ("trade", 1, 96.0), ("trade", 2, 108.0),
+D_OPS = [("eval",), ("adv",), ("adv_c",), ("adv_i",), ("add",), ("shares", 0, 5), ("shares", 1, 1), ("trade", 0, 104.0), ("trade", 1, 96.0), ("trade", 2, 108.0),
          # resting quotes: a never-traded component's market price follows its mid price, which moves without any fill
          ("quote", 0, 98.0, 106.0), ("quote", 1, 94.0, 100.0), ("bid", 0, 102.0),
          # a component stopped / restarted while the others keep running
@@ -195,6 +195,27 @@ class DWorld:
                 self.sim._update_time_on_market(m)
             self.split = True
             self.wit.inc("components_one_step_ahead_of_the_index")
+        elif k == "adv_i":
+            # somebody steps the index market BEFORE its components: it must either refuse (and stay where it is) or record
+            # the weighted average of the components' fundamentals for the NEW time all the same
+            if self.split:
+                return False
+            t = self.idx.get_time()
+            try:
+                self.sim._update_time_on_market(self.idx)
+            except Exception:  # noqa
+                if self.idx.get_time() != t:
+                    raise common.Violation("C17.order", "an index market stepped before its components refused but moved its clock", "t=%d -> %d" % (t, self.idx.get_time()))
+                self.wit.inc("index_stepped_before_components_refused")
+                self.check()
+                return True
+            comps = self.ms[:3] if self.added else self.ms[:2]
+            want = wavg([(c.outstanding_shares, self.sim.fundamentals.get_fundamental_price(c.market_id, t + 1)) for c in comps])
+            got = self.idx.get_fundamental_price(t + 1)
+            if not close(got, want, 1e-12):
+                raise common.Violation("C17.fundamental", "an index market stepped before its components recorded a fundamental value that is not the share-weighted average of the components' fundamentals for the new time",
+                                       "t=%d got %r expected %r" % (t + 1, got, want))
+            return False  # (an implementation that can do this correctly leaves the lock-step world: not explored further)
         elif k == "add":
             if self.added:
                 return False
@@ -312,7 +333,7 @@ def run(tier, seed):
     run_r("C17", tier, seed, deep, [acc_C17], b + 1, on_exc, WIT, RULE, res=res, label="share_grid_deeper")
     invalid_component_sets(res)
     direct_search(res, 5 if tier == "quick" else 6)
-    res.require_witness(["component_added_after_evaluation", "shares_revised_after_evaluation", "direct_index_evaluations", "components_one_step_ahead_of_the_index"])
+    res.require_witness(["component_added_after_evaluation", "shares_revised_after_evaluation", "direct_index_evaluations", "components_one_step_ahead_of_the_index", "index_stepped_before_components_refused"])
     return res
 
 
